@@ -47,6 +47,29 @@ func (e *envState) rebuildDurable(p *pathState, upto int) {
 	}
 }
 
+// commitPoint: after h.CrashAtCommits() every statement of /repo code that
+// commits to Badger — db.Update(..) (commits when its closure returns) and
+// txn.Commit() — is a crash candidate named commit:<file>:<line>, placed right
+// before the statement: a crash there is a crash after the previous commit and
+// before this one, so together these candidates cover every gap between two
+// Badger commits made by the operation, not only the hand-placed
+// verifhook.Point boundaries. The replay build has
+// verifhook.Point("commit:<file>:<line>") inserted before the same statements.
+func commitPoint(fr *frame) {
+	p := fr.i.path
+	e := p.env
+	if !e.crashCommits || fr.caller == nil || fr.caller.fn == nil {
+		return
+	}
+	file := fr.i.prog.Fset.Position(fr.caller.fn.Pos()).Filename
+	if !inRepo(file) {
+		return
+	}
+	name := "commit:" + mutexName(fr)
+	e.pointHits[name]++
+	e.effects = append(e.effects, effect{kind: "point", label: fmt.Sprintf("%s#%d", name, e.pointHits[name])})
+}
+
 func init() {
 	externals[hookPkg+".Point"] = func(fr *frame, args []value) value {
 		p := fr.i.path
@@ -95,6 +118,10 @@ func init() {
 			}
 		}
 		e.rebuildDurable(p, cands[k])
+		return nil
+	})
+	H("CrashAtCommits", func(fr *frame, args []value) value {
+		fr.i.path.env.crashCommits = true
 		return nil
 	})
 	H("Acked", func(fr *frame, args []value) value { return fr.i.path.env.acked })
